@@ -359,6 +359,21 @@ static const struct kdump_bmp_ops mem_pagemap_ops = {
 	.cleanup_locked = diskdump_bmp_cleanup_locked,
 };
 
+/** Return a file cache chunk while holding the cache lock.
+ * @param ctx  Dump file object.
+ * @param fch  File cache chunk.
+ *
+ * The reference counters of file cache entries are shared by all clones,
+ * so they must not be modified without the cache lock.
+ */
+static void
+put_chunk_locked(kdump_ctx_t *ctx, struct fcache_chunk *fch)
+{
+	mutex_lock(&ctx->shared->cache_lock);
+	fcache_put_chunk(fch);
+	mutex_unlock(&ctx->shared->cache_lock);
+}
+
 static kdump_status
 diskdump_read_page(struct page_io *pio)
 {
@@ -426,7 +441,7 @@ diskdump_read_page(struct page_io *pio)
 	if (pd.flags & DUMP_DH_COMPRESSED_ZLIB) {
 		ret = uncompress_page_gzip(ctx, pio->chunk.data,
 					   fch.data, pd.size);
-		fcache_put_chunk(&fch);
+		put_chunk_locked(ctx, &fch);
 		if (ret != KDUMP_OK)
 			return ret;
 	} else if (pd.flags & DUMP_DH_COMPRESSED_LZO) {
@@ -436,7 +451,7 @@ diskdump_read_page(struct page_io *pio)
 						pio->chunk.data,
 						&retlen,
 						LZO1X_MEM_DECOMPRESS);
-		fcache_put_chunk(&fch);
+		put_chunk_locked(ctx, &fch);
 		if (ret != LZO_E_OK)
 			return set_error(ctx, KDUMP_ERR_CORRUPT,
 					 "Decompression failed: %d", ret);
@@ -445,7 +460,7 @@ diskdump_read_page(struct page_io *pio)
 					 "Wrong uncompressed size: %lu",
 					 (unsigned long) retlen);
 #else
-		fcache_put_chunk(&fch);
+		put_chunk_locked(ctx, &fch);
 		return set_error(ctx, KDUMP_ERR_NOTIMPL,
 				 "Unsupported compression method: %s",
 				 "lzo");
@@ -456,7 +471,7 @@ diskdump_read_page(struct page_io *pio)
 		snappy_status ret;
 		ret = snappy_uncompress(fch.data, pd.size,
 					pio->chunk.data, &retlen);
-		fcache_put_chunk(&fch);
+		put_chunk_locked(ctx, &fch);
 		if (ret != SNAPPY_OK)
 			return set_error(ctx, KDUMP_ERR_CORRUPT,
 					 "Decompression failed: %d",
@@ -466,7 +481,7 @@ diskdump_read_page(struct page_io *pio)
 					 "Wrong uncompressed size: %lu",
 					 (unsigned long) retlen);
 #else
-		fcache_put_chunk(&fch);
+		put_chunk_locked(ctx, &fch);
 		return set_error(ctx, KDUMP_ERR_NOTIMPL,
 				 "Unsupported compression method: %s",
 				 "snappy");
@@ -476,7 +491,7 @@ diskdump_read_page(struct page_io *pio)
 		size_t ret;
 		ret = ZSTD_decompress(pio->chunk.data, get_page_size(ctx),
 				      fch.data, pd.size);
-		fcache_put_chunk(&fch);
+		put_chunk_locked(ctx, &fch);
 		if (ZSTD_isError(ret))
 			return set_error(ctx, KDUMP_ERR_CORRUPT,
 					 "Decompression failed: %s",
@@ -485,7 +500,7 @@ diskdump_read_page(struct page_io *pio)
 			return set_error(ctx, KDUMP_ERR_CORRUPT,
 					 "Wrong uncompressed size: %zu", ret);
 #else
-		fcache_put_chunk(&fch);
+		put_chunk_locked(ctx, &fch);
 		return set_error(ctx, KDUMP_ERR_NOTIMPL,
 				 "Unsupported compression method: %s",
 				 "zstd");
